@@ -177,6 +177,8 @@ impl<W, R, T> Runtime<W, R, T> {
                 );
             }
             if usize::from(stats.size) > max_size {
+                // nothing is constructed that would give the bytes back on drop
+                stats.size -= size;
                 Err(RuntimeViolation::AllocationLimitReached)
             } else {
                 Ok(size)
